@@ -24,13 +24,17 @@ sys.path.insert(0, ROOT)
 PY = os.path.join(ROOT, ".venv", "bin", "python")
 XH = os.path.join(ROOT, "vlib", "xh.py")
 KF_FILE = os.path.join(ROOT, "known_findings.json")
+# The registered commands always analyse /repo and write /verif/evidence. The two variables below exist only so that seeded changes can be
+# tried in scratch worktrees (tools/try_seed_wt.sh) without touching /repo or the committed evidence.
+REPO = os.environ.get("VERIF_REPO", "/repo")
+OUT = os.environ.get("VERIF_OUT", ROOT)
 
 
 def worker_env(slice_):
     env = dict(os.environ)
     env["VERIF_SLICE"] = json.dumps(slice_)
     env["PYTHONHASHSEED"] = "0"
-    env["PYTHONPATH"] = ROOT + os.pathsep + "/repo"
+    env["PYTHONPATH"] = ROOT + os.pathsep + REPO
     env["PYTHONDONTWRITEBYTECODE"] = "1"
     env["NEMO_GUARDRAILS_VERIF"] = "1"
     return env
@@ -126,7 +130,7 @@ def main():
 
     violations, inconclusive, harness_errors, known_lines = [], [], [], []
     samples, cond_reports = [], []
-    evid_path = os.path.join(ROOT, "evidence", pid + ".json")
+    evid_path = os.path.join(OUT, "evidence", pid + ".json")
 
     # 1. known findings: replay witnesses
     for f in known:
@@ -162,8 +166,8 @@ def main():
                 print("note: counterexample %s of %s lies in the region of known finding %s" % (json.dumps(args), c["fn"], f["key"]), flush=True)
                 return
         h = hashlib.sha1(json.dumps([module, c["fn"], s, args], sort_keys=True, default=repr).encode()).hexdigest()[:12]
-        os.makedirs(os.path.join(ROOT, "replays", pid), exist_ok=True)
-        path = os.path.join(ROOT, "replays", pid, h + ".json")
+        os.makedirs(os.path.join(OUT, "replays", pid), exist_ok=True)
+        path = os.path.join(OUT, "replays", pid, h + ".json")
         json.dump({"property": pid, "module": module, "fn": c["fn"], "slice": s, "args": args,
                    "origin": origin, "replay_result": replay_res}, open(path, "w"), indent=1, default=repr)
         violations.append({"fn": c["fn"], "slice": s, "args": args, "replay": path,
